@@ -548,31 +548,32 @@ static int sweep_c11(int argc, char **argv) {
                 int j = jj == 0 ? h : jj == 1 ? c : jj == 2 ? c - 1 : -1;
                 session_table *tab = session_table_create();
                 if (!tab) { viol("C11:setup", "session_table_create failed"); return 0; }
-                for (int step = 0; step < 2; step++) {
-                    int n = step == 0 ? h + 1 : c;
-                    int p = step == 0 ? h : j;
-                    uint16_t xid = (uint16_t)(step == 1 && chg ? XID + 1 : XID);
+                for (int step = 0; step < 3; step++) {         /* the long Discover arrives twice (the mapper repeats it), then the short one */
+                    int n = step < 2 ? h + 1 : c;
+                    int p = step < 2 ? h : j;
+                    uint16_t xid = (uint16_t)(step == 2 && chg ? XID + 1 : XID);
                     vp_fill_stream(buf, mtu, fseed + 13);
                     size_t o = mk_base(buf, BCAST, MX, 0, 0, BCAST, MX, xid);
                     buf[o++] = GEN >> 8; buf[o++] = GEN & 255; buf[o++] = (uint8_t)(n >> 8); buf[o++] = (uint8_t)n;
                     uint32_t s4 = fseed * 31337u + (uint32_t)h * 17u + (uint32_t)c;
                     for (size_t i = 36; i < mtu; i++) buf[i] = (uint8_t)(0x80 | (vp_prng(&s4) >> 9));
                     if (p >= 0) memcpy(buf + 36 + 6 * p, OWN, 6);
-                    int known = step == 1 && recorded;
+                    int known = step >= 1 && recorded;
+                    int changed2 = known && chg && step == 2;
                     int ack = p >= 0 && p < n;
                     int r = derive_session_event(buf, tab, OWN);
-                    int e = c11_expect(ack, known && chg);
+                    int e = c11_expect(ack, changed2);
                     cases++; seq_cases++;
                     if (r != e) {
                         char key[160];
                         snprintf(key, sizeof(key), "C11:discover:%s-after-an-earlier-discover-of-the-session",
-                                 r == c11_expect(!ack, known && chg) ? (ack ? "own-address-in-list-not-recognised" : "address-behind-the-list-recognised") : "wrong-event");
-                        viol(key, "first Discover: %d stations, own address at %d (session %s); second Discover (%s sequence number): %d stations, own address at "
-                             "entry %d (%s): derive_session_event=%d expected %d", h + 1, h, recorded ? "recorded" : "not recorded", chg ? "changed" : "same", c, j,
+                                 r == c11_expect(!ack, changed2) ? (ack ? "own-address-in-list-not-recognised" : "address-behind-the-list-recognised") : "wrong-event");
+                        viol(key, "first Discover (seen twice): %d stations, own address at %d (session %s); step %d, then a Discover (%s sequence number): %d stations, own address at "
+                             "entry %d (%s): derive_session_event=%d expected %d", h + 1, h, recorded ? "recorded" : "not recorded", step, chg ? "changed" : "same", c, j,
                              j < 0 ? "absent" : j < c ? "inside the list" : "behind the list, in the buffer's tail", r, e);
                         break;
                     } else nontriv++;
-                    if (step == 0 && recorded) {
+                    if (step < 2 && recorded) {
                         session_entry *en = session_table_add(tab, MX, GEN, XID);       /* what the daemon does with a Discover */
                         if (en) en->state = (uint8_t)r;
                     }
